@@ -10,10 +10,13 @@ import (
 	"reflect"
 
 	extv1 "k8s.io/apiextensions-apiserver/pkg/apis/apiextensions/v1"
+	kerrors "k8s.io/apimachinery/pkg/api/errors"
 	metav1 "k8s.io/apimachinery/pkg/apis/meta/v1"
 	"k8s.io/apimachinery/pkg/runtime"
+	"k8s.io/apimachinery/pkg/runtime/schema"
 	"k8s.io/apimachinery/pkg/types"
 	"k8s.io/utils/ptr"
+	"sigs.k8s.io/controller-runtime/pkg/client"
 
 	xpv1 "github.com/crossplane/crossplane-runtime/apis/common/v1"
 
@@ -121,11 +124,25 @@ func zzSetupObjects(s *kube.Store, n int, foreignUID string) (objs []runtime.Obj
 	return
 }
 
+// zzBehindCache is a client whose reads do not yet show one object the API
+// server already has (created since the cache last synced).
+type zzBehindCache struct {
+	*kube.Store
+	hidden string
+}
+
+func (c *zzBehindCache) Get(ctx context.Context, key client.ObjectKey, obj client.Object, opts ...client.GetOption) error {
+	if c.hidden != "" && key.Name == c.hidden {
+		return kerrors.NewNotFound(schema.GroupResource{Group: zzCRDGroup, Resource: "customresourcedefinitions"}, key.Name)
+	}
+	return c.Store.Get(ctx, key, obj, opts...)
+}
+
 // HarnessC16Establish: establishing the objects of a package is
 // all-or-nothing and respects the active / inactive role.
 //
 //gosym:harness
-//gosym:cover establish-error establish-ok inactive took-over-from-old foreign-object rejected-object revision-without-package-owner
+//gosym:cover establish-error establish-ok inactive took-over-from-old foreign-object rejected-object revision-without-package-owner object-behind-the-cache
 func HarnessC16Establish() {
 	n := zz.Bound(2, 3)
 	s := kube.New()
@@ -153,7 +170,10 @@ func HarnessC16Establish() {
 		parent.OwnerReferences = nil
 		zz.Cover("revision-without-package-owner")
 	}
-	e := NewAPIEstablisher(s, "crossplane-system", 10)
+	// one existing object may not have reached the cache the establisher reads
+	// from yet (an active revision then believes it has to create it)
+	cl := &zzBehindCache{Store: s}
+	e := NewAPIEstablisher(cl, "crossplane-system", 10)
 	// snapshots of the objects another owner controls
 	foreignBefore := map[int]map[string]any{}
 	for i, st := range states {
@@ -166,6 +186,12 @@ func HarnessC16Establish() {
 		// any call (validation or establish phase); it is then retried
 		s.FaultAt = zz.Choose("fault.at", 14) - 1
 		s.FaultKind = 1 + zz.Choose("fault.kind", 3)
+	}
+	if control && s.FaultAt < 0 {
+		if h := zz.Choose("behind.cache", n+1) - 1; h >= 0 && states[h] != zzAbsent {
+			zz.Cover("object-behind-the-cache")
+			cl.hidden = zzCRDNames[h]
+		}
 	}
 	refs, err := e.Establish(context.Background(), objs, parent, control)
 	mark := 0
